@@ -135,6 +135,41 @@ def mutants3_of(tree):
             yield ("except %s -> never" % ast.unparse(n.type)[:30], n.lineno, ("neverhandler", idx))
 
 
+def mutants4_of(tree):
+    """Fourth operator set (maintenance-commit shapes): an early return for a special input after the guards, a statement wrapped in a handler
+    that swallows its failure, the first / last statement of a lock's `with` body moved out of it, a `finally` clean-up that only runs on success."""
+    nodes = list(ast.walk(tree))
+    for idx, n in enumerate(nodes):
+        if isinstance(n, (ast.FunctionDef, ast.AsyncFunctionDef)) and n.name != "__init__" and not any(isinstance(d, ast.Name) and d.id == "property" for d in n.decorator_list):
+            ps = [a.arg for a in n.args.args if a.arg not in ("self", "cls")]
+            k = 0
+            for i, st in enumerate(n.body):
+                if isinstance(st, ast.Expr) and isinstance(st.value, ast.Constant):
+                    k = i + 1
+                    continue
+                if isinstance(st, ast.If) and all(isinstance(x, ast.Raise) for x in st.body) and not st.orelse:
+                    k = i + 1
+                    continue
+                break
+            if ps and k < len(n.body):
+                yield ("early return in %s when %s is special" % (n.name, ps[0]), n.body[k].lineno, ("earlyret", idx, k, ps[0]))
+        if isinstance(n, (ast.FunctionDef, ast.AsyncFunctionDef, ast.For, ast.AsyncFor, ast.While, ast.If, ast.With, ast.AsyncWith)):
+            for field in ("body", "orelse"):
+                body = getattr(n, field, None)
+                if not isinstance(body, list):
+                    continue
+                for j, st in enumerate(body):
+                    if isinstance(st, (ast.Expr, ast.Assign, ast.AugAssign)) and any(isinstance(x, ast.Call) for x in ast.walk(st)) \
+                            and not (isinstance(st, ast.Expr) and isinstance(st.value, ast.Constant)) and not any(isinstance(x, (ast.Yield, ast.YieldFrom)) for x in ast.walk(st)):
+                        if isinstance(st, ast.Expr):     # an assignment would leave its target unbound
+                            yield ("swallow failures of `%s`" % ast.unparse(st)[:40].replace("\n", " "), st.lineno, ("swallow", idx, field, j))
+        if isinstance(n, (ast.With, ast.AsyncWith)) and any("lock" in ast.unparse(it.context_expr) for it in n.items) and len(n.body) > 1:
+            yield ("first statement of `with %s` moved out" % ast.unparse(n.items[0].context_expr)[:30], n.lineno, ("withfirst", idx))
+            yield ("last statement of `with %s` moved out" % ast.unparse(n.items[0].context_expr)[:30], n.lineno, ("withlast", idx))
+        if isinstance(n, ast.Try) and n.finalbody:
+            yield ("finally clean-up only on success", n.lineno, ("finallysuccess", idx))
+
+
 def apply(tree, op):
     t = copy.deepcopy(tree)
     nodes = list(ast.walk(t))
@@ -177,6 +212,26 @@ def apply(tree, op):
             n.type = ast.Name(id="BaseException", ctx=ast.Load())
     elif kind == "neverhandler":
         n.type = ast.Name(id="StopAsyncIteration", ctx=ast.Load())
+    elif kind == "earlyret":
+        test = ast.Compare(left=ast.Name(id=op[3], ctx=ast.Load()), ops=[ast.Eq()], comparators=[ast.Constant(value="\x00special")])
+        n.body.insert(op[2], ast.If(test=test, body=[ast.Return(value=None)], orelse=[]))
+    elif kind == "swallow":
+        body = getattr(n, op[2])
+        st = body[op[3]]
+        body[op[3]] = ast.Try(body=[st], handlers=[ast.ExceptHandler(type=ast.Name(id="Exception", ctx=ast.Load()), name=None, body=[ast.Pass()])], orelse=[], finalbody=[])
+    elif kind == "withfirst":
+        first = n.body.pop(0)
+        parent_splice(t, n, [first, n])
+    elif kind == "withlast":
+        last = n.body.pop()
+        parent_splice(t, n, [n, last])
+    elif kind == "finallysuccess":
+        fb = n.finalbody
+        n.finalbody = []
+        if n.handlers:
+            parent_splice(t, n, [n] + fb)
+        else:
+            parent_splice(t, n, n.body + fb)
     elif kind == "unwrap":
         parent_splice(t, n, n.body)
     elif kind == "nofinally":
